@@ -10,6 +10,22 @@ from (workload, schedule).  Exploration: exhaustive with a pre-emption bound
 """
 import sys
 import threading
+import _thread
+
+
+class _Gate(object):
+  """Binary hand-off gate on a raw lock (much cheaper than threading.Semaphore)."""
+  __slots__ = ('l',)
+
+  def __init__(self):
+    self.l = _thread.allocate_lock()
+    self.l.acquire()
+
+  def acquire(self):
+    self.l.acquire()
+
+  def release(self):
+    self.l.release()
 
 
 class Deadlock(Exception):
@@ -29,7 +45,7 @@ class MThread(object):
     self.sched = sched
     self.name = name
     self.fn = fn
-    self.gate = threading.Semaphore(0)
+    self.gate = _Gate()
     self.done = False
     self.exc = None
     self.waiting_on = None
@@ -127,13 +143,14 @@ class Scheduler(object):
     self.files = set(files)
     self.opcodes = opcodes
     self.threads = []
-    self.ctl = threading.Semaphore(0)
+    self.ctl = _Gate()
     self._tls = threading.local()
     self.log = []          # (enabled names, chosen, current before, kind)
     self.max_steps = max_steps
     self.killing = False
     self.on_point = None   # callback(thread_name, kind) run in the yielding thread
     self.last = None
+    self.last_kind = {}
 
   def current(self):
     return getattr(self._tls, 'me', None)
@@ -150,16 +167,24 @@ class Scheduler(object):
   def _yield(self, me, kind):
     if self.killing:
       raise _Kill()
-    tr = sys.gettrace()
-    sys.settrace(None)
-    try:
-      if self.on_point:
-        self.on_point(me.name, kind)
-      me.steps += 1
-      self.ctl.release()
-      me.gate.acquire()
-    finally:
-      sys.settrace(tr)
+    if kind != 'blocked':
+      # nobody else could run: no choice to make, no hand-off needed
+      alone = True
+      for t in self.threads:
+        if t is not me and t.enabled():
+          alone = False
+          break
+      if alone:
+        self.last_kind[me.name] = kind
+        if self.on_point:
+          self.on_point(me.name, kind)
+        return
+    self.last_kind[me.name] = kind
+    if self.on_point:
+      self.on_point(me.name, kind)
+    me.steps += 1
+    self.ctl.release()
+    me.gate.acquire()
     if self.killing:
       raise _Kill()
 
@@ -184,6 +209,10 @@ class Scheduler(object):
           if all(t.done for t in self.threads):
             break
           raise Deadlock('no enabled thread: %s' % [(t.name, t.done, getattr(t.waiting_on, 'name', None)) for t in self.threads])
+        if cur is not None and self.last_kind.get(cur) == 'sleep':
+          # a sleeping thread gave the processor up voluntarily: switching away is no pre-emption
+          enabled = [t for t in enabled if t.name != cur] + [t for t in enabled if t.name == cur]
+          cur = None
         names = [t.name for t in enabled]
         pick = chooser(step, names, cur if cur in names else None)
         t = enabled[names.index(pick)]
